@@ -317,11 +317,14 @@ fn imported_secrets(rep: &mut Report, seed: u64, idx: u64) {
     let id = rng.bytes(20);
     let (pk, _, _) = seeded_passkey(&mut rng, "example.com", &id, Some(b"u"), None, Some((uv_secret.clone(), no_uv_secret.clone())));
     rig.store.insert_raw(pk);
-    let mut auth = rig.auth(AuthCfg { hmac: HmacCfg::WithoutUv, ..Default::default() });
+    // the authenticator that serves the credential need not be configured like the one that created it
+    // (a synced vault, a configuration changed between releases): what is stored with the credential decides
+    let serving = *Rng::derive(seed, "c09impcfg", idx).pick(&[HmacCfg::WithoutUv, HmacCfg::UvOnly]);
+    let mut auth = rig.auth(AuthCfg { hmac: serving, ..Default::default() });
     let salt1 = rng.arr32();
     let salt2 = rng.bool().then(|| rng.arr32());
-    let case = json!({"index": idx, "level": "ctap", "part": "imported credential", "prf_secret_lengths": [l_uv, l_no], "user_verified": verified, "second_salt": salt2.is_some()});
-    rep.nontrivial(fnv_str(&format!("imp|{l_uv}|{l_no}|{verified}|{}", salt2.is_some())));
+    let case = json!({"index": idx, "level": "ctap", "part": "imported credential", "prf_secret_lengths": [l_uv, l_no], "user_verified": verified, "second_salt": salt2.is_some(), "serving_authenticator_hmac_secret_configuration": format!("{serving:?}")});
+    rep.nontrivial(fnv_str(&format!("imp|{l_uv}|{l_no}|{verified}|{}|{serving:?}", salt2.is_some())));
     let req = ga_request("example.com", &[2u8; 32], Some(vec![descriptor(&id)]), Some(get_assertion::ExtensionInputs { hmac_secret: None, prf: Some(AuthenticatorPrfInputs { eval: Some(AuthenticatorPrfValues { first: salt1, second: salt2 }), eval_by_credential: None }) }), true, verified);
     let secret = if verified { Some(uv_secret) } else { no_uv_secret };
     match block_on(auth.get_assertion(req)) {
@@ -330,7 +333,9 @@ fn imported_secrets(rep: &mut Report, seed: u64, idx: u64) {
             match (out, &secret) {
                 (Some(r), Some(s)) => {
                     rep.count("imported_secret_results_compared");
-                    if r.first != oracle::hmac_sha256(s, &salt1) || r.second != salt2.map(|x| oracle::hmac_sha256(s, &x)) {
+                    // (an absent second result is not a wrong result: the UV-only configuration gives none)
+                    let second_ok = r.second == salt2.map(|x| oracle::hmac_sha256(s, &x)) || (serving == HmacCfg::UvOnly && r.second.is_none());
+                    if r.first != oracle::hmac_sha256(s, &salt1) || !second_ok {
                         rep.violate("ctap: assertion PRF result is not HMAC-SHA-256(the stored secret, salt) for an imported credential", format!("stored secret of {} bytes", s.len()), case);
                     }
                 }
@@ -519,7 +524,8 @@ fn gen_history(rng: &mut Rng) -> Vec<Op> {
             uv: Some(uvr(rng)),
             resident_key: None,
             require_rk: false,
-            cred_props: None,
+            // another extension asked for in the same call does not change what is reported about PRF
+            cred_props: *rng.pick(&[None, None, Some(true), Some(false)]),
             prf,
             exclude: None,
             uv_outcome: uv_out(rng),
